@@ -50,6 +50,10 @@ func (n jnode) build() any {
 		return (*stackage.Condition)(nil)
 	case "tnil-int":
 		return (*int)(nil)
+	case "bytes":
+		return []byte("bt")
+	case "nil-bytes":
+		return []byte(nil)
 	case "tnil-pp": // typed nils more than one pointer level deep
 		return (**int)(nil)
 	case "tnil-ppp":
@@ -231,6 +235,24 @@ func c16Run(c *Ctx, cs c16Case, count bool, neighbours ...jnode) {
 			return
 		}
 	}
+	// a twin marshalled from the very same input: comparing the two (both directions) returns normally
+	if !wasInit {
+		var twin stackage.Stack
+		if noPanic(func() {
+			if cs.Form == "spread" {
+				twin.Marshal(cs.In.build().([]any)...)
+			} else {
+				twin.Marshal(cs.In.build())
+			}
+		}) == "" && twin.IsInit() {
+			for dir, pair := range [][2]stackage.Stack{{recv, twin}, {twin, recv}} {
+				if p := noPanic(func() { pair[0].IsEqual(pair[1]) }); p != "" {
+					c.Violation("panic-after:IsEqual(twin)", fmt.Sprintf("%s succeeded; IsEqual (direction %d) against a twin marshalled from the same input panicked: %s", desc, dir, p), cs, size)
+					return
+				}
+			}
+		}
+	}
 	// comparing with other marshalled stacks (both directions) must return normally as well; besides the
 	// neighbours in the enumeration, the same input with every operator slot filled by a non-operator
 	// (and vice versa) gives a stack of identical shape that differs only there
@@ -290,6 +312,15 @@ func c16Run(c *Ctx, cs c16Case, count bool, neighbours ...jnode) {
 				}
 			}
 		}
+		// the stack Marshal has just built is an initialised receiver like any other: a further Marshal
+		// gives it one more element (nobody asked for a capacity)
+		lenBuilt := recv.Len()
+		var err2 error
+		if p := noPanic(func() { err2 = recv.Marshal("AND", "later") }); p != "" {
+			c.Violation("panic:Marshal-again", desc+": a second Marshal into the stack just built panicked: "+p, cs, size)
+		} else if err2 != nil || recv.Len() != lenBuilt+1 {
+			c.Violation("into-built:len", fmt.Sprintf("%s: a second Marshal(\"AND\",\"later\") into the stack just built returned %v and Len went from %d to %d, want nil and +1 (Cap %d)", desc, err2, lenBuilt, recv.Len(), recv.Cap()), cs, size)
+		}
 		c.Outcome("built:" + recv.Kind())
 		return
 	}
@@ -342,7 +373,7 @@ func c16Inputs(c *Ctx) []jnode {
 	s := func(x string) jnode { return jnode{T: "str", S: x} }
 	l := func(k ...jnode) jnode { return jnode{T: "list", Kids: k} }
 	labels := []jnode{s("AND"), s("or"), s("Not"), s("LIST"), s("basic"), s("CONDITION"), s("condition")}
-	atoms := []jnode{s("junk"), s(""), {T: "int"}, {T: "nil"}, {T: "tnil-stack"}, {T: "tnil-cond"}, {T: "tnil-int"}, {T: "tnil-pp"}, {T: "tnil-ppp"}, {T: "op"}, {T: "op0"}, {T: "uop"}, {T: "uop-empty"},
+	atoms := []jnode{s("junk"), s(""), {T: "int"}, {T: "nil"}, {T: "tnil-stack"}, {T: "tnil-cond"}, {T: "tnil-int"}, {T: "tnil-pp"}, {T: "tnil-ppp"}, {T: "bytes"}, {T: "nil-bytes"}, {T: "op"}, {T: "op0"}, {T: "uop"}, {T: "uop-empty"},
 		{T: "stack"}, {T: "stack0"}, {T: "cond"}, {T: "cond0"}, {T: "float"}, {T: "bool"}}
 	// depth-1 nested lists: every label followed by 0..2 atoms, condition rows of length 1..6, and junk lists
 	var nested []jnode
@@ -363,7 +394,7 @@ func c16Inputs(c *Ctx) []jnode {
 	for _, lb := range []jnode{s("CONDITION"), s("condition")} {
 		for _, kw := range []jnode{s("kw"), {T: "int"}, {T: "nil"}, s("")} {
 			for _, op := range opPos {
-				for _, ex := range []jnode{s("v"), {T: "nil"}, l(s("OR"), s("a")), l(s("CONDITION"), s("k"), jnode{T: "op"}, s("v")), l(), {T: "stack0"}, s(""), {T: "tnil-pp"}, {T: "tnil-ppp"}} {
+				for _, ex := range []jnode{s("v"), {T: "nil"}, l(s("OR"), s("a")), l(s("CONDITION"), s("k"), jnode{T: "op"}, s("v")), l(), {T: "stack0"}, s(""), {T: "tnil-pp"}, {T: "tnil-ppp"}, {T: "bytes"}, {T: "nil-bytes"}} {
 					nested = append(nested, l(lb, kw, op, ex))
 				}
 			}
